@@ -73,6 +73,7 @@ def run(ck):
     check_analysis_hooks(ck, bad, abort_reach)
 
     check_analysis_cannot_crash(ck)
+    check_note_positions(ck)
     # ---- --color ------------------------------------------------------------------------------------------------
     check_color(ck, bad)
 
@@ -325,6 +326,123 @@ def check_analysis_cannot_crash(ck):
                                        "%s writes a field the invariant of %s speaks about" % (fn.id, adt), fn.where(s))
         ck.ok(rule, "fields of %s's invariant are written by its own methods only" % adt.split("::")[-1],
               "invariant %s" % ["%s <= %s%+d" % (i[1], ("len(" + i[3] + ")") if i[2] == "#" else i[3], i[4]) for i in invs])
+
+
+NOTE_AFTER_OK = ("into_iter", "filter", "skip", "take", "rev", "skip_while", "take_while", "peekable", "by_ref", "step_by", "fuse", "inspect")
+NOTE_SPINE_OK = ("iter", "zip", "into_iter", "enumerate", "by_ref", "deref", "as_ref", "as_slice", "hunks", "borrow")
+
+
+def check_note_positions(ck, rule="C14-R9"):
+    """The note of an analysis names a hunk by position and the printer of the note indexes the file patch's hunks with it.  That index
+    is in range because (a) every `Note::hunk` hands out the stored field as it is, (b) every note is built with the counter of an
+    `enumerate()` over `file_patch.hunks()` (through iter / zip only: never more elements than hunks, nothing skipped before), with no
+    arithmetic on it, and (c) the note is reported together with that same file patch.  A position outside the hunks would crash a
+    run under -A that succeeds without it."""
+    prog = ck.prog
+    impls = sorted(f for f in prog.fns if f.endswith(" as libpatch::analysis::Note>::hunk"))
+    if not ck.require(len(impls) >= 1, rule, "Note::hunk implementations found", "no implementation of Note::hunk (anchor lost)"):
+        return
+    # consumers
+    nc = 0
+    for fn in sorted(prog.fns.values(), key=lambda f: f.id):
+        for bb, t in fn.terms():
+            if t["k"] != "assert" or "BoundsCheck" not in str(t.get("msg")) or not isinstance(t.get("cond"), dict):
+                continue
+            e = df.operand_expr(fn, t["cond"])
+            if not df.mentions(e, lambda x: df.is_call(x, "analysis::Note::hunk")):
+                continue
+            nc += 1
+            ok = isinstance(e, tuple) and e[0] == "bin" and e[1] == "Lt" if isinstance(e, tuple) and len(e) > 3 else False
+            idx, ln = (e[2], e[3]) if ok else (None, None)
+            plain = ok and isinstance(idx, tuple) and not df.mentions(idx, lambda x: isinstance(x, tuple) and x and x[0] in ("bin", "chk")) \
+                and df.mentions(ln, lambda x: df.is_call(x, "FilePatch::<'a, Line>::hunks"))
+            ck.require(plain, rule, "the note's position indexes the hunks of the file patch it came with (%s)" % fn.id.split("::")[-1],
+                       "the position of a note is used as an index here in a form the rule does not know: %s" % df.show(e, 120), fn.where(t),
+                       ok_detail=df.show(e, 110))
+    ck.floor(rule, "places indexing with a note's hunk position", nc, 1)
+    # (a) the accessors
+    fields = {}
+    for fid in impls:
+        f = prog.fns[fid]
+        adt = fid.split(" as ")[0].lstrip("<")
+        rets = [df.show(x, 80) for x in df.all_def_exprs(f, 0)]
+        fl = set()
+        good = True
+        for x in df.all_def_exprs(f, 0):
+            if isinstance(x, tuple) and x and x[0] == "agg":
+                txt = df.show(x, 120)
+                flds = df.fields_in(x)
+                if "None" in txt and not flds:
+                    continue
+                if df.mentions(x, lambda y: isinstance(y, tuple) and y and y[0] in ("bin", "chk", "call")) or len(flds) != 1:
+                    good = False
+                else:
+                    fl.add(flds[0])
+            else:
+                good = False
+        ck.require(good, rule, "%s::hunk hands out the stored position unchanged" % adt.split("::")[-1],
+                   "Note::hunk of %s computes its answer (%s): the stored position and the reported one can differ" % (adt, rets), f.where(),
+                   ok_detail="returns %s" % rets)
+        fields[adt] = fl
+    # (b), (c) the constructions
+    nb = 0
+    for fn in sorted(prog.fns.values(), key=lambda f: f.id):
+        if " as core::clone::Clone>::clone" in fn.id:
+            continue
+        for bb, idx_, s in fn.stmts():
+            if s["k"] != "assign" or s["rv"]["k"] != "agg" or s["rv"].get("adt") not in fields or not s["rv"].get("fields"):
+                continue
+            adt = s["rv"]["adt"]
+            for name, op in zip(s["rv"]["fields"], s["rv"]["ops"]):
+                if name not in fields[adt]:
+                    continue
+                nb += 1
+                e = df.operand_expr(fn, op)
+                nexts = [x for x in df.walk(e) if isinstance(x, tuple) and x and x[0] == "call" and x[1].endswith("Iterator>::next")]
+                arith = df.mentions(e, lambda x: isinstance(x, tuple) and x and x[0] in ("bin", "chk", "un")) or len(df.calls_in(e)) != len(nexts)
+                if not ck.require(len(nexts) == 1 and not arith and df.show(e, 400).endswith(".0"), rule,
+                                  "a note's hunk position is the counter of an enumeration, as counted (%s)" % fn.id.split("::")[-1].replace(">", ""),
+                                  "the position stored in %s.%s is %s: not the bare counter of an enumerate() - it can name a hunk the file patch "
+                                  "does not have, and the printer of the note indexes with it" % (adt.split("::")[-1], name, df.show(e, 120)), fn.where(s),
+                                  ok_detail=df.show(e, 100)):
+                    continue
+                # what is drawn from: adapters that keep (counter, item) pairs as they are, then enumerate(), then the hunks from the first on
+                x = nexts[0][2][0] if nexts[0][2] else None
+                chain = []
+                seen = set()
+                for _ in range(40):
+                    if isinstance(x, tuple) and x and x[0] in ("ref", "deref") and len(x) > 1:
+                        x = x[1]
+                    elif isinstance(x, tuple) and x and x[0] == "call" and x[2]:
+                        chain.append(x[1].split("::")[-1])
+                        x = x[2][0]
+                    elif isinstance(x, tuple) and x and x[0] == "local" and x[1] not in seen:
+                        seen.add(x[1])
+                        ds = [d for d in df.all_def_exprs(fn, x[1]) if isinstance(d, tuple) and d and d[0] == "call"]
+                        if len(ds) != 1:
+                            break
+                        x = ds[0]
+                    else:
+                        break
+                owner = x
+                if "enumerate" in chain:
+                    k = chain.index("enumerate")
+                    after, before = chain[:k], chain[k + 1:]
+                else:
+                    after, before = chain, []
+                spine_ok = "enumerate" in chain and all(c in NOTE_AFTER_OK for c in after) and bool(before) and before[-1] == "hunks" and \
+                    all(c in NOTE_SPINE_OK for c in before)
+                ck.require(spine_ok, rule, "what is counted are the hunks of the file patch, from the first on (%s)" % fn.id.split("::")[-1].replace(">", ""),
+                           "the enumeration whose counter becomes the note's position does not run over file_patch.hunks() from the start, or the "
+                           "pairs are reworked after counting (%s)" % " <- ".join(chain), fn.where(s), ok_detail=" <- ".join(chain))
+                # reported with the same file patch
+                rep = [t3 for bb3, t3 in fn.calls() if (callee_of(t3).get("path") or "").endswith(("Fn::call", "FnMut::call_mut", "FnOnce::call_once"))
+                       and df.mentions(df.operand_expr(fn, t3["args"][1]) if len(t3["args"]) > 1 else None, lambda y: isinstance(y, tuple) and y and y[0] == "agg" and adt.split("::")[-1] in str(y[1]))]
+                same = bool(rep) and owner is not None and all(df.mentions(df.operand_expr(fn, t3["args"][1]), lambda y: y == owner) for t3 in rep)
+                ck.require(same, rule, "the note is reported with the file patch whose hunks were counted (%s)" % fn.id.split("::")[-1].replace(">", ""),
+                           "the note built here is not handed to the reporter together with %s" % df.show(owner, 40), fn.where(s),
+                           ok_detail="%d report call(s) with %s" % (len(rep), df.show(owner, 30)))
+    ck.floor(rule, "notes built with a hunk position", nb, 1)
 
 
 def check_color(ck, bad):
